@@ -105,6 +105,92 @@ def search(chk, r, n, max_pto):
             chk.extra["search_exceptions"][k] = chk.extra["search_exceptions"].get(k, 0) + 1
 
 
+def search_exchange_kernels(chk, r, n):
+    """equal-charge exchange on the real Combiner, no convolution needed (so every order up to N3LO):
+    in a massless scheme on a proton target every kernel gives equally charged active quarks other
+    than the tagged one the same weight; and with the Z decoupled (M_Z = 1e30) the NC weights of the
+    real coupling object are the EM ones, for the ordinary and the fl11 weights"""
+    import yadism
+    from yadism.coefficient_functions import Combiner
+
+    B = realrun.BASIS
+    for t, o in corr_weights.combiner_configs(r, n, processes=["EM", "NC"], schemes=["ZM-VFNS"]):
+        o = dict(o, TargetDIS="proton", NCPositivityCharge=None)
+        o["observables"] = {nm: [dict(x=0.1, Q2=q2) for q2 in (1.5, 10.0, 100.0, 1e5)] for nm in o["observables"]}
+        t = dict(t, mc=1.51, mb=4.92, mt=172.5, kcThr=1.0, kbThr=1.0, ktThr=1.0)
+        try:
+            runner = yadism.Runner(t, o)
+        except Exception:
+            continue
+        for name, obj in runner.observables.items():
+            for esf in obj.elements:
+                try:
+                    comb = Combiner(esf)
+                    elems = comb.collect_elems()
+                except Exception:
+                    continue
+                nf = int(comb.nf)
+                tagged = esf.info.obs_name.hqnumber
+                groups = [[q_ for q_ in (1, 3, 5) if q_ <= nf and q_ != tagged], [q_ for q_ in (2, 4, 6) if q_ <= nf and q_ != tagged]]
+                worst, where, scale = 0.0, None, 0.0
+                for k in elems:
+                    for g in groups:
+                        for sg in (1, -1):
+                            ws = [float(k.partons.get(sg * q_, 0.0)) for q_ in g]
+                            if len(ws) >= 2:
+                                d = max(ws) - min(ws)
+                                scale = max(scale, max(abs(w) for w in ws))
+                                if d > worst:
+                                    worst, where = d, dict(kernel=type(k.coeff).__module__.split(".")[-2] + "." + type(k.coeff).__name__, quarks=[sg * q_ for q_ in g], weights=ws)
+                sample = dict(obs=name, process=o["prDIS"], projectile=o["ProjectileDIS"], pto=t["PTODIS"], Q2=float(esf.Q2), nf=nf, tagged=tagged, worst=worst, where=where)
+                chk.search_case("equal_charge_exchange_kernel_weights", worst <= 1e-13 * max(scale, 1e-300), what=f"{name} {o['prDIS']} pto={t['PTODIS']} nf={nf}: a kernel weighs equally charged active quarks differently: {where}", data=sample, sample=sample if worst else None, nontrivial=scale > 0)
+
+
+def search_decoupling_weights(chk, r, n):
+    """Z decoupling on the real coupling object: with M_Z -> infinity the NC weights (ordinary and
+    fl11, every quark, every coupling type, polarised beams) are the EM ones"""
+    from yadism.coefficient_functions.coupling_constants import CouplingConstants
+
+    for i in range(n):
+        th_kw, ob_kw = cards.rand_ew(r)
+        th_kw["MZ"] = 1e30
+        proj = r.choice(["electron", "positron"])
+        th = cards.theory(**th_kw)
+        objs = {}
+        try:
+            for proc in ("NC", "EM"):
+                ob = cards.obs({}, prDIS=proc, ProjectileDIS=proj, **ob_kw)
+                import yadism
+
+                runner = yadism.Runner(th, dict(ob, observables={"F2_total": [dict(x=0.1, Q2=10.0)]}))
+                objs[proc] = runner.configs.coupling_constants
+        except Exception as e:
+            chk.extra.setdefault("search_exceptions", {})
+            k = f"decoupling:{type(e).__name__}:{str(e)[:80]}"
+            chk.extra["search_exceptions"][k] = chk.extra["search_exceptions"].get(k, 0) + 1
+            continue
+        Q2 = float(r.choice([1.0, 20.0, 5000.0, 1e5]))
+        worst, where, scale = 0.0, None, 0.0
+        for pid in range(1, 7):
+            for qct in ("VV", "AA", "VA", "AV"):
+                a, b = float(objs["NC"].get_weight(pid, Q2, qct)), float(objs["EM"].get_weight(pid, Q2, qct))
+                scale = max(scale, abs(b))
+                if abs(a - b) > worst:
+                    worst, where = abs(a - b), dict(fn="get_weight", pid=pid, qct=qct, NC=a, EM=b)
+                for nf in (3, 4, 5, 6):
+                    if qct not in ("VV", "AA"):
+                        continue
+                    try:
+                        a, b = float(objs["NC"].get_fl11_weight(pid, Q2, nf, qct)), float(objs["EM"].get_fl11_weight(pid, Q2, nf, qct))
+                    except Exception:
+                        continue
+                    scale = max(scale, abs(b))
+                    if abs(a - b) > worst:
+                        worst, where = abs(a - b), dict(fn="get_fl11_weight", pid=pid, nf=nf, qct=qct, NC=a, EM=b)
+        sample = dict(projectile=proj, polarization=ob_kw.get("PolarizationDIS"), Q2=Q2, MZ=1e30, worst=worst, where=where)
+        chk.search_case("nc_weights_with_decoupled_Z_are_em", worst <= 1e-12 * max(scale, 1e-300), what=f"NC weight with M_Z=1e30 differs from the EM weight: {where}", data=sample, sample=sample if i == 0 or worst else None, nontrivial=scale > 0)
+
+
 def run(tier):
     chk = common.Check("C13", tier)
     thorough = tier == "thorough"
@@ -112,5 +198,7 @@ def run(tier):
     r = common.rng("C13")
     corr_weights.run_weights(chk, 1500 if thorough else 150, r)
     search(chk, r, 160 if thorough else 20, 2 if thorough else 1)
+    search_exchange_kernels(chk, r, 120 if thorough else 25)
+    search_decoupling_weights(chk, r, 40 if thorough else 8)
     chk.assumptions += ["relations are proved for the weight maps; their lift to whole outputs uses linearity of the operator in the weights (opEntry) and is observed on pairs of real runs", "NC->EM: proved as NC-EM = eta*(A+eta*B); the real-run search uses MZ=MW=1e9"]
     return chk
